@@ -317,7 +317,14 @@ func GenLoop(rng *vkit.Rng) (*s2.Loop, string) {
 
 // GenPolygon returns a polygon, its class, and whether every loop has at least one vertex.
 func GenPolygon(rng *vkit.Rng) (*s2.Polygon, string) {
-	switch rng.Intn(12) {
+	switch rng.Intn(13) {
+	case 5:
+		// a loop without vertices among (or instead of) snapped loops
+		loops := []*s2.Loop{s2.VerifC09LoopRaw(nil, true, 1, AnyRect(rng))}
+		if rng.Bool() {
+			loops = append(loops, RawLoop(rng, Vertices(rng, OneLevel, 4, 10)))
+		}
+		return s2.VerifC09PolygonRaw(loops, rng.Bool(), AnyRect(rng)), "polygon:zero-vertex-loop"
 	case 0:
 		return &s2.Polygon{}, "polygon:zero-value"
 	case 1:
@@ -363,7 +370,7 @@ func GenPolygon(rng *vkit.Rng) (*s2.Polygon, string) {
 	}
 	loops := make([]*s2.Loop, nl)
 	for i := range loops {
-		n := []int{1, 2, 3, 4, 6, 9, 20, 63, 64, 65}[rng.Intn(10)]
+		n := []int{1, 2, 3, 3, 4, 4, 5, 6, 9, 12, 20, 63, 64, 65}[rng.Intn(14)]
 		m := mode
 		if rng.Intn(5) == 0 {
 			m = VertexMode(rng.Intn(int(numVertexModes)))
